@@ -45,6 +45,8 @@ def frame(hours):
 STD_BOOKS = {
     "C1": dict(kind="CALL", strike=2000, mark=0.0495, asks=[[0.05, 5], [0.0505, 2], [0.051, 10]], bids=[[0.049, 3], [0.0485, 6]]),
     "P1": dict(kind="PUT", strike=1900, mark=0.0295, asks=[[0.03, 1]], bids=[]),
+    # binary-exact prices: the second level of either side sits EXACTLY on mark x 2 / mark / 2, i.e. on a price cap of 2
+    "D1": dict(kind="CALL", strike=2100, mark=0.03125, asks=[[0.032, 6], [0.0625, 9]], bids=[[0.03, 6], [0.015625, 9]], fixed=True),
 }
 
 
@@ -55,7 +57,7 @@ def std_frame(n_hours=3, underlying=(2000.0, 2010.0, 1995.0), start=T0, books=No
         ts = start + timedelta(hours=h)
         instrs = []
         for name, b in books.items():
-            shift = round(mark_drift * h, 6)
+            shift = 0.0 if b.get("fixed") else round(mark_drift * h, 6)
             asks = [[round(p + shift, 6), a] for p, a in b["asks"]]
             bids = [[round(p + shift, 6), a] for p, a in b["bids"]]
             instrs.append(instrument(name, b["kind"], b["strike"], b.get("expiry", expiry), round(b["mark"] + shift, 6),
@@ -177,4 +179,12 @@ class DeribitAdapter:
                         out.append(Op(f"{n}.sell[{ins},{amt},{pricing}]",
                                       lambda c, ins=ins, amt=amt, kw=kw: m.sell(ins, Decimal(amt), **kw("sell")),
                                       not ((amt, pricing) == ("1", "market") and ins == "C1"), f"{n}.sell"))
+        if "D1" in m.market_status.data.index:
+            for side in ("buy", "sell"):
+                for amt in ("6", "10"):
+                    for pricing in ("market", "cap2"):
+                        def call(c, side=side, amt=amt, pricing=pricing):
+                            kw = {"max_mark_price_multiple": Decimal(2)} if pricing == "cap2" else {}
+                            return (m.buy if side == "buy" else m.sell)("D1", Decimal(amt), **kw)
+                        out.append(Op(f"{n}.{side}[D1,{amt},{pricing}]", call, True, f"{n}.{side}"))
         return out
